@@ -24,6 +24,7 @@ def jobs_for(tier):
     jobs += [("inflow", c) for c in SC.dsm_configs(tier)]
     jobs += [("stockdriven", dict(c, both_generic=True)) for c in SC.dsm_configs(tier) if c["n_pts"] == 1 and c["n_t"] <= 4]
     jobs += [("stockdriven", c) for c in SC.int_driver_configs(tier) + SC.layout_configs(tier)]
+    jobs += [("stockdriven", dict(n_t=3, labels=(), dist="NormalLifetime", over="number", n_pts=n, inflow_at="end", both_generic=True)) for n in (1, 2)]
     for cls in ("SimpleFlowDrivenStock", "InflowDrivenDSM"):
         for labels in ((), ("a",)):
             for p in ["none"] + list(SC.PERTURBATIONS):
